@@ -869,6 +869,64 @@ static void draw_band(int nf, int *k)
     grid_between(k, nf, lo, hi);
 }
 
+/*
+ * emit_makepar: the other kinds of frequency-limited (or unlimited)
+ * parameters a standard can be made of:
+ *   scalar                        no frequency limits
+ *   unk   over base               limits of the base (initial guess)
+ *   corr  over base, sigma grid   limits of the base intersected with the
+ *                                 span of the sigma frequency vector
+ *                                 (nsk >= 2; nsk = 1: one sigma, no grid)
+ */
+static int emit_makepar(const char *kind, int base, const int *sk, int nsk)
+{
+    int h = -1, err;
+    double fv[KMAX], sv[KMAX];
+
+    vt_cb_reset();
+    if (strcmp(kind, "scalar") == 0) {
+	h = LIB(vnacal_make_scalar_parameter(vcp, crand(0.9)));
+    } else if (strcmp(kind, "unk") == 0) {
+	h = LIB(vnacal_make_unknown_parameter(vcp, base));
+    } else {
+	for (int i = 0; i < nsk; ++i) {
+	    fv[i] = F(sk[i]);
+	    sv[i] = urand(0.01, 1.0);
+	}
+	h = LIB(vnacal_make_correlated_parameter(vcp, base,
+		    nsk >= 2 ? fv : NULL, nsk, sv));
+    }
+    err = errno;
+    vt_put("{\"e\":\"MakePar\",\"kind\":\"%s\",\"base\":%d,", kind, base);
+    put_ints("sk", sk, nsk >= 2 ? nsk : 0);
+    vt_put(",\"h\":%d", h);
+    put_result(h >= 0, err);
+    vt_put("}");
+    vt_end_line();
+    return h;
+}
+
+/* a sigma grid of the given range kind relative to [lo, hi]; returns the
+ * number of knots (>= 2) or 0 if the kind collapses to a point */
+static int draw_sigma_grid(int *sk, int kind, int lo, int hi)
+{
+    int amin, amax, n;
+
+    range_of_kind(kind, lo, hi, &amin, &amax);
+    if (amax <= amin)
+	return 0;
+    n = 2 + vt_below(&rng, 4);
+    return grid_between(sk, n, amin, amax);
+}
+
+static int draw_miss_kind(void)
+{
+    /* cover (exact / wide), >= 5 % miss low / high / both, slight misses */
+    static const int kinds[] = { 0, 1, 2, 3, 4, 2, 3, 4, 3, 5, 6 };
+
+    return kinds[vt_below(&rng, (int)(sizeof(kinds) / sizeof(kinds[0])))];
+}
+
 static void ep_rng(uint64_t seed, int idx)
 {
     vnacal_type_t type;
@@ -876,6 +934,7 @@ static void ep_rng(uint64_t seed, int idx)
     int nf, band1[KMAX], band2[KMAX], np, scalar_h, err;
     vpar_t P[6];
     int variant = idx % 2;
+    int H[24], nh = 0;
 
     ep_begin("rng", seed, idx);
     type = rng_types[vt_below(&rng, 6)];
@@ -910,14 +969,76 @@ static void ep_rng(uint64_t seed, int idx)
 	p->cls = 0;
 	fill_values(p);
 	emit_makevec(p);
+	if (p->h >= 0)
+	    H[nh++] = p->h;
+    }
+    /*
+     * the other frequency-limited standards: unknown over a vector guess,
+     * correlated over a scalar / vector / unknown base with an explicit
+     * sigma grid (the usable range is the intersection), correlated with
+     * a single sigma (no grid, no extra limit)
+     */
+    {
+	const int *band = vt_below(&rng, 4) ? band1 : band2;
+	int lo = band[0], hi = band[nf - 1];
+	int sk[KMAX], nsk, hu = -1, jv = -1;
+
+	for (int j = 0; j < np; ++j)
+	    if (P[j].h >= 0 && (jv < 0 || vt_below(&rng, 2)))
+		jv = j;
+	if (jv >= 0) {
+	    hu = emit_makepar("unk", P[jv].h, NULL, 0);
+	    if (hu >= 0 && vt_below(&rng, 2))
+		H[nh++] = hu;
+	}
+	for (int t = 0; t < 2; ++t) {
+	    /* correlated over a scalar base: only the sigma grid limits */
+	    int hs = emit_makepar("scalar", -1, NULL, 0);
+
+	    nsk = draw_sigma_grid(sk, draw_miss_kind(), lo, hi);
+	    if (hs >= 0 && nsk >= 2) {
+		int hc = emit_makepar("corr", hs, sk, nsk);
+
+		if (hc >= 0)
+		    H[nh++] = hc;
+	    }
+	}
+	if (jv >= 0) {
+	    /* correlated over a vector base, and over the unknown above:
+	     * the sigma grid must overlap the base's own range */
+	    for (int t = 0; t < 2; ++t) {
+		int base = t == 0 ? P[jv].h : hu;
+
+		if (base < 0)
+		    continue;
+		nsk = draw_sigma_grid(sk, draw_miss_kind(), lo, hi);
+		if (nsk >= 2 && sk[0] <= P[jv].k[P[jv].n - 1] &&
+			sk[nsk - 1] >= P[jv].k[0]) {
+		    int hc = emit_makepar("corr", base, sk, nsk);
+
+		    if (hc >= 0)
+			H[nh++] = hc;
+		}
+	    }
+	}
+	if (vt_below(&rng, 2)) {
+	    /* one sigma for all frequencies: no limit of its own */
+	    int hs = emit_makepar("scalar", -1, NULL, 0);
+
+	    sk[0] = lo;
+	    if (hs >= 0) {
+		int hc = emit_makepar("corr", hs, sk, 1);
+
+		if (hc >= 0)
+		    H[nh++] = hc;
+	    }
+	}
+	shuffle(H, nh);
     }
     if (variant == 0) {
 	emit_setf(vnp, band1, nf);
-	for (int j = 0; j < np; ++j) {
-	    if (P[j].h >= 0)
-		emit_addvec(vnp, type, nf, P[j].h, vt_below(&rng, 6),
-			scalar_h);
-	}
+	for (int j = 0; j < nh; ++j)
+	    emit_addvec(vnp, type, nf, H[j], vt_below(&rng, 6), scalar_h);
 	emit_setf(vnp, band2, nf);
 	/* whichever band is in force now is not known here: the trace
 	 * spec tracks it; draw the noise grids around both */
@@ -927,11 +1048,8 @@ static void ep_rng(uint64_t seed, int idx)
 	    emit_setmerr(vnp, vt_below(&rng, 10), band[0], band[nf - 1], nf);
 	}
     } else {
-	for (int j = 0; j < np; ++j) {
-	    if (P[j].h >= 0)
-		emit_addvec(vnp, type, nf, P[j].h, vt_below(&rng, 6),
-			scalar_h);
-	}
+	for (int j = 0; j < nh; ++j)
+	    emit_addvec(vnp, type, nf, H[j], vt_below(&rng, 6), scalar_h);
 	/* set_m_error before the frequency vector: documented as an error */
 	emit_setmerr(vnp, vt_below(&rng, 4), band1[0], band1[nf - 1], nf);
 	emit_setf(vnp, band1, nf);
